@@ -88,3 +88,31 @@ _m("C07",
    "delay=True, a volume, or a pre-built interface; distinct by case hash.",
    _COMMON, exhaustive=True,
    exhaustive_note="the option lattice is enumerated completely for every generated (model, grid); models and grids are sampled")
+
+_m("C05",
+   "Hypothesis builds finite-state networks (1..3 species, 1..4 reactions from mass-action shapes of order 1..3 "
+   "with repeated reactants and catalysts, the Hill families and rational general rates; every reaction has "
+   "#products <= #reactants so the state space is finite; a 'safe' variant lets any type consume and guards it with "
+   "the safe interface), initial counts 0..8, rate constants in [0.05,5], grids of 2..6 points in three regimes "
+   "(many events per step, several points between events, mixed).  N1 seeded consecutive SSA paths (10k quick / 40k "
+   "thorough; model-API surface 1/20 of that) are compared with the master equation solved on the enumerated "
+   "state space (expm): pooled chi-square on every time-point marginal and every consecutive two-time joint, "
+   "two-stage confirmation (p < 1e-4/m then 10x samples p < 1e-9/m); a reported state outside the reachable set is "
+   "an exact failure.  Non-trivial: >= 2 reactions and >= 2 states with probability > 5% at some reported time.",
+   _COMMON + ["statistical power: a relative bias of ~5% in cells of probability >= 0.1 is rejected; smaller biases pass",
+              "state spaces are capped at 400 states", "zero-order inflow (open systems) is not generated"],
+   budget={"quick": 240, "thorough": 2400})
+
+_m("C06",
+   "Hypothesis builds networks (2..5 species, 1..6 reactions: mass-action shapes of order 0..3, Hill and general "
+   "rates, catalytic / zero-order production, optional delay blocks; counts up to 50; non-mass-action consuming "
+   "reactions of arbitrary shape only for the safe simulators), usually in instrumented form (reaction r also produces "
+   "a private counter N_r, its delayed part a counter D_r), and simulates one seeded path with one of SSA, safe SSA, "
+   "volume SSA, safe volume SSA, delay SSA, safe delay SSA, py_simulate_model(safe=True) on grids of 3..30 points. "
+   "Checked on all rows: first row = initial state; integrality; exact conservation laws (rational left null space of "
+   "[S|S_d]); row differences = sum of counter increments x stoichiometry (delayed part by delivery counters for the "
+   "delay simulator, D = N for the others); non-negativity (mass action, or safe mode); persistence of states with "
+   "zero total reference propensity; and (1 case in 8) the safe interface's propensity table is exactly 0 for "
+   "under-supplied reactions.  Non-trivial: >= 3 events on a network with a conservation law or a non-mass-action rate "
+   "in safe mode, or an under-supplied safe-table case.",
+   _COMMON + ["delayed reactants may legitimately drive a count negative at delivery: non-negativity is not asserted then"])
